@@ -55,7 +55,7 @@ def literal_shapes(rec):
     return feats
 
 
-def close(a, b, rtol=1e-12):
+def close(a, b, rtol=1e-9):   # libm (gfortran) and NumPy round exp/log differently in the last place; iterated, |x| e^x amplifies that (a REAL(4) constant is off by 1e-8)
     a, b = np.asarray(a, dtype=float), np.asarray(b, dtype=float)
     if a.shape != b.shape:
         return False
